@@ -5,6 +5,7 @@ import re
 
 from .lib import hir as H
 from .lib import mir as M
+from .lib import emit as E_
 
 EXPL = ("Non-interference and provenance rules (E3) on main.rs / cliargs: both modes reach the same run_buf; the forward "
         "slice of its cmd_mode parameter reaches only the condition guarding the print of last_popped (itself also "
@@ -20,48 +21,171 @@ def run(F, R, tier):
     mn, rb, rfile = F.fn("main"), F.fn("run_buf"), F.fn("run_file")
     if not (R.anchor("main", mn) and R.anchor("run_buf", rb) and R.anchor("run_file", rfile)):
         return
+    from .lib import panics as P
+    WRAP = re.compile(r"(::clone|::to_vec|::to_owned|::as_slice|::as_ref|::borrow|::deref|::into|::from|::as_str|::to_string)$")
+
+    def origin(sym):
+        """the value a term is a copy / view of: refs, derefs, casts, indexes by a constant and copy-like calls are looked through"""
+        while True:
+            if sym[0] in ("ref", "deref"):
+                sym = sym[1]
+            elif sym[0] == "cast":
+                sym = sym[2]
+            elif sym[0] == "call" and sym[1] and WRAP.search(sym[1]) and len(sym[2]) == 1:
+                sym = sym[2][0]
+            else:
+                return sym
+
     # ---- (a) both modes reach run_buf; cmd_mode only guards the print of the last value ------------------------------------
-    txt = H.render(H.body_of(mn))
-    R.ob("mode-dispatch", "main: -c → run_buf(cmd, args, true, skip_pcap)", "if let v1::Some(cmd) = command {run_buf(cmd, args, true, skip_pcap); return" in txt, txt[:200], F.loc(mn))
-    R.ob("mode-dispatch", "main: no arguments → run_prompt, else run_file(&args[0].clone(), args, skip_pcap)",
-         "if args.is_empty() {run_prompt(args)} else {run_file(&args[0].clone(), args, skip_pcap)}" in txt, "", F.loc(mn))
-    ft = H.render(H.body_of(rfile))
-    R.ob("mode-dispatch", "run_file → run_buf(buf, args, false, skip_pcap) with the file's text unmodified",
-         "let buf = fs::read_to_string(path)" in ft and "let buf = buf.unwrap(); run_buf(buf, args, false, skip_pcap)" in ft, ft[:200], F.loc(rfile))
-    # uses of cmd_mode in run_buf
-    pid = None
-    for p in rb["hir"]["params"]:
-        if p.get("name") == "cmd_mode":
-            pid = p["id"]
-    uses = [x for x in H.walk(H.body_of(rb)) if H.local_id(x) == pid]
-    conds = [x for x in H.walk(H.body_of(rb)) if x.get("k") == "if" and any(H.local_id(y) == pid for y in H.walk(x["c"]))]
-    ok = len(uses) == 1 and len(conds) == 1 and H.render(conds[0]["c"]) == "(cmd_mode && !filter_mode)"
-    R.ob("cmd-mode-noninterference", "cmd_mode is read exactly once, in the guard of the last-value print", ok,
-         "%d uses; guard %s" % (len(uses), H.render(conds[0]["c"]) if conds else None), F.loc(rb))
-    if conds:
-        t = H.render(conds[0]["t"])
-        ok = "let stack_elem = vm.last_popped()" in t and "if !match stack_elem.as_ref() {Object::Null => true; _ => false}" in t and "e" not in conds[0]
-        calls = [H.last(c.get("callee") or c.get("m") or "") for c in H.walk(conds[0]["t"]) if c.get("k") in ("call", "mcall")]
-        side = [c for c in calls if c not in ("last_popped", "as_ref", "write_fmt", "stdout", "new", "new_display", "Arguments::new")]
-        R.ob("cmd-mode-noninterference", "the guarded block only prints the last popped value when it is not null", ok, "calls in the block: %s" % calls, F.loc(rb))
-    # MIR cross-check: the only switch on cmd_mode
+    Bm = M.Body(mn)
+    sites = {}
+    for bi, b in enumerate(Bm.blocks):
+        t = b["term"]
+        if t["k"] == "call" and not b.get("cleanup") and t.get("callee") in ("run_buf", "run_prompt", "run_file"):
+            sites.setdefault(t["callee"], []).append(bi)
+    disp_ok = all(len(sites.get(k, [])) == 1 for k in ("run_buf", "run_prompt", "run_file"))
+    det = {k: len(v) for k, v in sites.items()}
+    if disp_ok:
+        def ctx(bi):
+            cx = P.Ctx(Bm, F)
+            facts, variants = P.edge_facts(Bm, cx, bi)
+            return [(str(l), r) for l, r in P._Facts(facts, cx)], variants, [Bm.sym_op(a, through_vars=True) for a in Bm.blocks[bi]["term"]["args"]]
+        f_b, v_b, a_b = ctx(sites["run_buf"][0])
+        f_p, v_p, a_p = ctx(sites["run_prompt"][0])
+        f_f, v_f, a_f = ctx(sites["run_file"][0])
+        cmd_some = lambda vs: any("get_cmd" in v[0] and v[1] == "is" and v[2] == 1 for v in vs)
+        cmd_none = lambda vs: any("get_cmd" in v[0] and ((v[1] == "not" and 1 in v[2]) or (v[1] == "is" and v[2] == 0)) for v in vs)
+        argv = lambda sym: origin(sym)[0] == "call" and (origin(sym)[1] or "").endswith("CliArgs::get_args")
+        ARGS = M.show(a_p[0])
+        ok_buf = cmd_some(v_b) and len(a_b) == 4 and M.show(origin(a_b[0])).startswith("(CliArgs::get_cmd(") and argv(a_b[1]) and a_b[2] == ("const", True, "bool")
+        ok_prompt = cmd_none(v_p) and argv(a_p[0]) and ("+1·len(%s) +0" % ARGS, "==") in f_p
+        ok_file = cmd_none(v_f) and len(a_f) == 3 and argv(a_f[1]) and ("+1·len(%s) -1" % ARGS, ">=") in f_f and \
+            origin(a_f[0])[0] == "index" and argv(origin(a_f[0])[1]) and origin(a_f[0])[2] == ("const", 0, "usize")
+        det = "run_buf: %s; run_prompt: %s; run_file: %s" % (ok_buf, ok_prompt, ok_file)
+        R.ob("mode-dispatch", "main: -c → run_buf(cmd, args, true, skip_pcap)", ok_buf,
+             "under %s with (%s)" % ([v for v in v_b if "get_cmd" in v[0]], ", ".join(M.show(x)[:50] for x in a_b)), F.loc(mn))
+        R.ob("mode-dispatch", "main: no arguments → run_prompt, else run_file(&args[0].clone(), args, skip_pcap)", ok_prompt and ok_file,
+             "run_prompt under %s; run_file(%s) under %s" % (f_p, ", ".join(M.show(x)[:40] for x in a_f), f_f), F.loc(mn))
+    else:
+        R.ob("mode-dispatch", "main calls run_buf, run_prompt and run_file once each", False, str(det), F.loc(mn))
+    Bf = M.Body(rfile)
+    rbc = sorted(M.call_blocks(Bf, lambda t: t.get("callee") == "run_buf"))
+    ok = len(rbc) == 1
+    det = "%d calls of run_buf" % len(rbc)
+    if ok:
+        a = [Bf.sym_op(x, through_vars=True) for x in Bf.blocks[rbc[0]]["term"]["args"]]
+        src = origin(a[0])
+        # the text handed over is the Ok payload of read_to_string(path): unwrap(..) or the `.0` of the Ok variant
+        while src[0] in ("field", "downcast") or (src[0] == "call" and (src[1] or "").endswith(("::unwrap", "::expect")) and src[2]):
+            src = origin(src[1] if src[0] != "call" else src[2][0])
+        ok = src[0] == "call" and src[1] == "std::fs::read_to_string" and origin(src[2][0])[0] == "arg" and origin(src[2][0])[2] == 1 and \
+            origin(a[1])[0] == "arg" and origin(a[1])[2] == 2 and a[2] == ("const", False, "bool") and origin(a[3])[0] == "arg" and origin(a[3])[2] == 3
+        det = "run_buf(%s)" % ", ".join(M.show(x)[:50] for x in a)
+    R.ob("mode-dispatch", "run_file → run_buf(buf, args, false, skip_pcap) with the file's text unmodified", ok, det, F.loc(rfile))
+    # cmd_mode (run_buf's third parameter) decides one branch only: the print of the last value, which also needs
+    # `not filter mode` and `not null`
     B = M.Body(rb)
+    cm_name = B.local_name(3)
     sw = 0
     for bi, b in enumerate(B.blocks):
         t = b["term"]
-        if t["k"] == "switch":
-            s = B.sym_op(t["d"], through_vars=True)
-            if "cmd_mode" in M.show(s):
+        if t["k"] == "switch" and not b.get("cleanup"):
+            s_ = B.sym_op(t["d"], through_vars=True)
+            if any(x[0] == "arg" and x[2] == 3 for x in M.subterms(s_)):
                 sw += 1
     R.ob("cmd-mode-noninterference", "MIR: exactly one branch depends on cmd_mode", sw == 1, "%d switches" % sw, F.loc(rb))
+    Bi = M.Body(M.inline_calls(F, rb, lambda c: F.fns[c]["file"] == rb["file"] and c not in ("parse_program", "init_builtin_vars", "run_filters") and
+                               len(F.fns[c]["mir"]["blocks"]) <= 150, depth=2)[0])
+    under_cmd = [bi for bi, b in enumerate(Bi.blocks) if not b.get("cleanup") and b["term"]["k"] == "call" and Bi.bool_conditions(bi).get(cm_name) is True] \
+        if hasattr(Bi, "bool_conditions") else \
+        [bi for bi, b in enumerate(Bi.blocks) if not b.get("cleanup") and b["term"]["k"] == "call" and M.bool_conditions(Bi, bi).get(cm_name) is True]
+    callees = sorted({M.short_callee(Bi.blocks[bi]["term"].get("callee") or Bi.blocks[bi]["term"].get("decl") or "?") for bi in under_cmd})
+    ALLOWED = re.compile(r"^(VM::last_popped|as_ref|deref|write_fmt|clone|drop|.*::as_ref|.*::deref|io::stdout|Write::write_fmt|.*::write_fmt|Arguments::new.*|Argument::new_display|.*::clone|.*::drop|mem::drop|fmt::.*|rt::.*)$")
+    extra = [c for c in callees if not ALLOWED.match(c)]
+    lp = [bi for bi in under_cmd if (Bi.blocks[bi]["term"].get("callee") or "").endswith("VM::last_popped")]
+    fm_false = bool(lp) and all(any(v is False and k != cm_name for k, v in M.bool_conditions(Bi, bi).items() if "filter" in k) for bi in lp)
+    # ... and only after the program ran to its end: after a runtime error there is no value of a final expression statement
+    after_ok = bool(lp) and all(any("VM::run(" in M.show(sy) and dty != "bool" and (vals in ((0,), ("not", (1,)))) for sy, vals, dty in M.dominating_conditions(Bi, bi))
+                                or any("is_err(" in k and "VM::run(" in k and v is False for k, v in M.bool_conditions(Bi, bi).items())
+                                or any("is_ok(" in k and "VM::run(" in k and v is True for k, v in M.bool_conditions(Bi, bi).items()) for bi in lp)
+    R.ob("last-value-after-success", "-c prints the last value only when VM::run returned Ok (a failed run leaves an operand, not a result, in that slot)", after_ok,
+         "conditions dominating the read of the last value: %s" % ([sorted(M.bool_conditions(Bi, bi).items()) for bi in lp][:1]), F.loc(rb))
+    R.ob("cmd-mode-noninterference", "cmd_mode is read exactly once, in the guard of the last-value print", bool(lp) and fm_false,
+         "last_popped under cmd_mode = true and filter mode = false: %s" % fm_false, F.loc(rb))
+    # the print itself is skipped for null (HIR of run_buf with the print helper inlined)
+    rbi = H.body_inl(F, rb, keep=("last_popped", "run_filters", "init_builtin_vars", "parse_program"))
+    par = {}
+    stack = [(rbi, None)]
+    while stack:
+        n, pa = stack.pop()
+        if isinstance(n, dict):
+            if "k" in n:
+                par[id(n)] = pa
+            for v in n.values():
+                if isinstance(v, (dict, list)):
+                    stack.append((v, n if "k" in n else pa))
+        elif isinstance(n, list):
+            for v in n:
+                stack.append((v, pa))
+    outs = [c for c in H.walk(rbi) if c.get("k") == "mcall" and c["m"] == "write_fmt" and "stdout" in H.render(c["recv"])]
+    null_ok = bool(outs)
+    for c in outs:
+        cur, guarded = c, False
+        while cur is not None and not guarded:
+            up = par.get(id(cur))
+            if up is None:
+                break
+            if up.get("k") == "if" and "Object::Null" in H.render(up["c"]):
+                neg = H.render(H.strip(up["c"])).startswith("!")
+                guarded = (neg and any(x is c for x in H.walk(up["t"]))) or (not neg and up.get("e") is not None and any(x is c for x in H.walk(up["e"])))
+            if up.get("k") == "match" and not H.is_try(up):
+                null_arms = [a for a in up["arms"] if {H.last(v) for v in H.pat_variants(a["pat"])} == {"Null"}]
+                if null_arms and not any(x is c for a in null_arms for x in H.walk(a["body"])) and not any(x.get("k") in ("call", "mcall") for a in null_arms for x in H.walk(a["body"])):
+                    guarded = True
+            cur = up
+        null_ok = null_ok and guarded
+    R.ob("cmd-mode-noninterference", "the guarded block only prints the last popped value when it is not null", null_ok and not extra,
+         "calls under cmd_mode: %s%s" % (callees, "; unexpected: %s" % extra if extra else ""), F.loc(rb))
     # ---- (c) argv provenance -----------------------------------------------------------------------------------------------------
     cn = F.fn("cliargs::CliArgs::new")
     if R.anchor("CliArgs::new", cn):
-        t = H.render(H.body_of(cn))
-        ok = "let args = Vec::new(); if let v1::Some(script) = cliargs.script.clone() {args.push(script)}; args.extend_from_slice(cliargs.args.as_slice())" in t
-        R.ob("argv-provenance", "CliArgs::new: argv = [script] ++ args, in order", ok, t[:260], F.loc(cn))
-        muts = [x["m"] for x in H.walk(H.body_of(cn)) if x.get("k") == "mcall" and H.render(x["recv"]) == "args"]
-        R.ob("argv-provenance", "argv is only built with push(script) then extend_from_slice(args)", muts == ["push", "extend_from_slice"], str(muts), F.loc(cn))
+        b = H.body_of(cn)
+        # the vector that becomes the `args` field of the returned CliArgs, and what is appended to it, in order
+        st = [x for x in H.walk(b) if x.get("k") == "struct" and H.last(x["res"].get("path") or "") in ("CliArgs", "Self")]
+        vid = None
+        if st:
+            for fd in st[-1]["fields"]:
+                if fd["name"] == "args":
+                    vid = H.local_id(H.strip(fd["e"]))
+        # locals bound to the parsed `script` / `args` fields (field access, or a destructuring pattern)
+        field_of = {}
+        for x in H.walk(b):
+            if x.get("k") == "struct" and "pats" not in x and x.get("fields") and all("pat" in fd for fd in x["fields"]):
+                for fd in x["fields"]:
+                    for y in H.walk(fd["pat"]):
+                        if y.get("k") == "bind":
+                            field_of[y["id"]] = fd["name"]
+            if x.get("k") == "if" and H.strip(x["c"]).get("k") == "let":
+                c_ = H.strip(x["c"])
+                src = H.render(H.strip(c_["init"]))
+                for y in H.walk(c_["pat"]):
+                    if y.get("k") == "bind":
+                        lid0 = H.local_id(H.strip(c_["init"]))
+                        field_of[y["id"]] = field_of.get(lid0) or ("script" if src.endswith(".script") else ("args" if src.endswith(".args") else None))
+
+        def src_field(e):
+            e = H.strip(e)
+            while e.get("k") == "mcall" and not e.get("args") and e["m"] in ("as_slice", "iter", "into_iter", "cloned", "to_vec", "drain", "as_mut_slice"):
+                e = H.strip(e["recv"])
+            lid_ = H.local_id(e)
+            if lid_ in field_of:
+                return field_of[lid_]
+            t_ = H.render(e)
+            return "script" if t_.endswith(".script") else ("args" if t_.endswith(".args") else None)
+        muts = [(x["m"], src_field(x["args"][0]) if x.get("args") else None) for x in E_.eval_order(b) if x.get("k") == "mcall" and H.local_id(H.strip(x["recv"])) == vid and vid is not None
+                and x["m"] not in ("len", "is_empty", "capacity", "reserve", "as_slice", "clone", "iter")]
+        ok = len(muts) == 2 and muts[0] == ("push", "script") and muts[1][0] in ("extend_from_slice", "extend", "append") and muts[1][1] == "args"
+        R.ob("argv-provenance", "CliArgs::new: argv = [script] ++ args, in order", ok, "appended in order: %s" % muts, F.loc(cn))
     # the command-line surface clap is told to parse: per argument, the behaviour-relevant builder calls of the derived
     # parser (help texts and value names are cosmetic).  `--`, dash-prefixed values and where options may appear are
     # decided by these settings: e.g. trailing_var_arg / allow_hyphen_values on `args` make a later `--` part of argv.
@@ -98,17 +222,54 @@ def run(F, R, tier):
             R.ob("cli-surface", "argument `%s`" % a_, per.get(a_) == w, "parser settings %s (reference %s)" % (sorted(per.get(a_) or []), sorted(w)), F.loc(au))
     ga = F.fn("cliargs::CliArgs::get_args")
     if R.anchor("CliArgs::get_args", ga):
-        R.ob("argv-provenance", "get_args returns the vector as built", H.render(H.body_of(ga)) == "self.args.as_slice()", H.render(H.body_of(ga)), F.loc(ga))
-    R.ob("argv-provenance", "main passes cliargs.get_args().to_vec() unchanged", "let args = cliargs.get_args().to_vec()" in txt and
-         len([x for x in H.walk(H.body_of(mn)) if x.get("k") == "mcall" and H.render(x["recv"]) == "args" and x["m"] not in ("is_empty",)]) == 0, "", F.loc(mn))
+        from .lib import decide as D_
+        t_ = D_.canon_text(H.body_of(ga))
+        R.ob("argv-provenance", "get_args returns the vector as built", t_ in ("self.args.as_slice()", "self.args", "self.args.as_ref()", "self.args[RangeFull]"), t_, F.loc(ga))
     ib = F.fn("init_builtin_vars")
     if R.anchor("init_builtin_vars", ib):
-        t = H.render(H.body_of(ib))
-        ok = "let elements = args.into_iter().map(|s| Rc::new(Object::Str(s))).collect()" in t and \
-            "vm.update_builtin_var(BuiltinVarType::Argv, arr)" in t and "let arr = Rc::new(Object::Arr(Rc::new(Array::new(elements))))" in t
-        R.ob("argv-provenance", "init_builtin_vars maps argv element-wise into the Argv variable", ok, t[:200], F.loc(ib))
-    calls = [c for c in H.walk(H.body_of(rb)) if c.get("k") == "call" and c.get("callee") == "init_builtin_vars"]
-    R.ob("argv-provenance", "run_buf passes its args to init_builtin_vars", len(calls) == 1 and H.render(calls[0]["args"]) == "&vm, args", "", F.loc(rb))
+        from .lib import decide as D_
+        b = H.body_of(ib)
+        pid = [p_["id"] for p_ in ib["hir"]["params"] if p_.get("k") == "bind"][1] if len(ib["hir"]["params"]) >= 2 else None
+        nb = H.unlet(b)
+        upd = [c for c in H.walk(nb) if c.get("k") == "mcall" and c["m"] == "update_builtin_var" and "Argv" in H.render(c["args"][0])]
+        ok, det = False, "no update of Argv"
+        if len(upd) == 1:
+            news = [c for c in H.walk(upd[0]["args"][1]) if c.get("k") == "call" and (c.get("callee") or "").endswith("Array::new")]
+            if len(news) == 1:
+                e = H.strip(news[0]["args"][0])
+                BAD = ("rev", "skip", "take", "filter", "step_by", "skip_while", "take_while", "filter_map", "chain", "zip", "dedup", "sort")
+                if e.get("k") == "mcall" and e["m"] == "collect":
+                    chain = []
+                    cur = e
+                    while cur.get("k") == "mcall":
+                        chain.append(cur["m"])
+                        cur = H.strip(cur["recv"])
+                    maps = [c for c in H.walk(e) if c.get("k") == "mcall" and c["m"] == "map"]
+                    each = D_.canon_text(H.strip(maps[0]["args"][0])["body"]) if maps and H.strip(maps[0]["args"][0]).get("k") == "closure" else "?"
+                    ok = H.local_id(cur) == pid and not set(chain) & set(BAD) and re.fullmatch(r"Rc::new\(Object::Str\((\w+)(\.to_string\(\))?\)\)", each) is not None
+                    det = "args.%s with each element as %s" % (".".join(reversed(chain)), each)
+                elif H.local_id(e) is not None:
+                    vid = H.local_id(e)
+                    pushes = [c for c in H.walk(nb) if c.get("k") == "mcall" and c["m"] in ("push", "extend", "insert", "push_front") and H.local_id(H.strip(c["recv"])) == vid]
+                    loops = [x for x in H.walk(nb) if x.get("k") == "match" and x.get("src", "").startswith("ForLoop") and x["scrut"].get("k") == "call" and
+                             H.last(x["scrut"].get("callee") or "") == "into_iter" and any(c is y for c in pushes for y in H.walk(x))]
+                    if len(pushes) == 1 and pushes[0]["m"] == "push" and len(loops) == 1:
+                        it = loops[0]["scrut"]["args"][0]
+                        chain = [c["m"] for c in H.walk(it) if c.get("k") == "mcall"]
+                        base = H.strip(it)
+                        while base.get("k") == "mcall":
+                            base = H.strip(base["recv"])
+                        each = D_.canon_text(pushes[0]["args"][0])
+                        ok = H.local_id(base) == pid and not set(chain) & set(BAD) and re.fullmatch(r"Rc::new\(Object::Str\((\w+)(\.to_string\(\))?\)\)", each) is not None
+                        det = "for each of args%s: push %s" % ("." + ".".join(chain) if chain else "", each)
+        R.ob("argv-provenance", "init_builtin_vars maps argv element-wise into the Argv variable", ok, det, F.loc(ib))
+    Brb = M.Body(rb)
+    ibc = sorted(M.call_blocks(Brb, lambda t: t.get("callee") == "init_builtin_vars"))
+    ok = len(ibc) == 1 and len(Brb.blocks[ibc[0]]["term"]["args"]) == 2
+    if ok:
+        o = origin(Brb.sym_op(Brb.blocks[ibc[0]]["term"]["args"][1], through_vars=True))
+        ok = o[0] == "arg" and o[2] == 2
+    R.ob("argv-provenance", "run_buf passes its args to init_builtin_vars", ok, "", F.loc(rb))
     # ---- (d) shebang: '#' starts a comment at any position ----------------------------------------------------------------------------
     sc = F.fn("scanner::Scanner::skip_comments")
     nt = F.fn("scanner::Scanner::next_token")
